@@ -30,17 +30,19 @@ func scenario(p Params) *vexplore.Scenario {
 			out := map[*[]byte]bool{}
 			gots := make([][]string, len(p.Threads))
 			var finalUsed uint64
-			setup := func(e *vsync.Exec) {
-				e.Invariant = func() string {
-					var real uint64
-					for b := range out {
-						real += uint64(cap(*b))
-					}
-					if p.MaxTotal > 0 && real > p.MaxTotal {
-						return fmt.Sprintf("%d bytes checked out, budget %d", real, p.MaxTotal)
-					}
-					return ""
+			over := ""
+			budget := func() string {
+				var real uint64
+				for b := range out {
+					real += uint64(cap(*b))
 				}
+				if p.MaxTotal > 0 && real > p.MaxTotal {
+					return fmt.Sprintf("%d bytes checked out, budget %d", real, p.MaxTotal)
+				}
+				return ""
+			}
+			setup := func(e *vsync.Exec) {
+				e.Invariant = budget
 			}
 			body := func() {
 				var hs []vsync.Handle
@@ -55,6 +57,11 @@ func scenario(p Params) *vexplore.Scenario {
 							} else {
 								gots[i] = append(gots[i], fmt.Sprint(cap(*b)))
 								out[b] = true
+								// evaluated the moment a buffer is handed out (threads run one at a time), not only
+								// at the next scheduling point
+								if m := budget(); m != "" && over == "" {
+									over = m
+								}
 								held = append(held, b)
 							}
 							if len(held) > 1 {
@@ -85,6 +92,8 @@ func scenario(p Params) *vexplore.Scenario {
 					return "step-horizon-exceeded", "", outcome
 				case len(e.InvariantViolations) > 0:
 					return "checked-out-bytes-exceed-budget", e.InvariantViolations[0], outcome
+				case over != "":
+					return "checked-out-bytes-exceed-budget", over, outcome
 				case finalUsed != 0:
 					return "usage-not-zero-after-all-returned", fmt.Sprintf("UsedBytes()=%d after every buffer was returned", finalUsed), outcome
 				}
